@@ -96,6 +96,8 @@ Section Client.
         let w1 := upd w (Some j) (next w) e' (clock w + dur d)%Z [EvRead j r] in
         match r with
         | RData b =>
+          (* conn.Read returned (0, nil): receive returns ErrRscpInvalidFrameLength and leaves the connection open *)
+          if (length b =? 0)%nat then (s, w1, Err EProto) else
           let all := pend ++ b in
           let n := (32 * (length all / 32))%nat in
           if (n =? 0)%nat then recv_loop f deadline buf all s w1 else
